@@ -49,6 +49,7 @@ type Program struct {
 	nameOf  map[*ssa.Function]string
 	anonIdx map[*ssa.Function]int
 	kg      *KGraph
+	Renamed []string // declared names mapped back to the symbol table's (normalize.go)
 }
 
 // Load loads ./... of the repository's current working tree.
